@@ -18,7 +18,13 @@ try:
     for p in props:
         t0 = time.time()
         env = dict(os.environ); env.setdefault("VERIF_MAX_S", "120")
-        r = subprocess.run([os.path.join(ROOT, "check"), p, "quick"], capture_output=True, text=True, env=env)
+        env.setdefault("VMSIM_HANG_S", "60")
+        try:
+            r = subprocess.run([os.path.join(ROOT, "check"), p, "quick"], capture_output=True, text=True, env=env, timeout=1500)
+        except subprocess.TimeoutExpired:
+            out[p] = {"exit": -1, "classes": ["timeout"], "wall_s": 1500, "first": "timeout"}
+            print(p, json.dumps(out[p]))
+            continue
         classes = sorted(set(re.findall(r"^\s+(C\d+/\S+)", r.stderr, re.M)))
         out[p] = {"exit": r.returncode, "classes": classes, "wall_s": round(time.time() - t0, 1), "first": (r.stderr.strip().splitlines() or [""])[0][:400]}
         print(p, json.dumps(out[p]))
